@@ -9,7 +9,8 @@ Decided on the syntax tree, three-valued per expression (a small provenance anal
 
   ANON     the result of `.get_anon_type()` or of a `create_type(...)` without annotations, a class named in the source (NatType ...), the `args`
            of an existing type / instruction class (anonymous by construction resp. rejected at load time as Octez does)
-  TAINTED  `type(v)` of a value, the `args` of a section class (parameter / storage root types keep their annotation), anything computed
+  TAINTED  `type(v)` of a value, the `args` of a section class (parameter / storage root types keep their annotation), the arguments of an
+           argument type (`t.args[0].args`: components of a pair / or carry field annotations), anything computed
            from those through locals, containers, conditional expressions, casts and calls of repository functions (return summaries)
   UNKNOWN  anything else
 
@@ -178,7 +179,12 @@ class Flow:
             return A if kind == 'class' else U
         if isinstance(e, ast.Attribute):
             if e.attr == 'args':
-                return T if self.is_section(fi) and isinstance(e.value, ast.Name) and e.value.id in ('cls', 'self') else A
+                if self.is_section(fi) and isinstance(e.value, ast.Name) and e.value.id in ('cls', 'self'):
+                    return T
+                # the arguments OF AN ARGUMENT type (`lambda_.args[0].args`): an argument type may be a pair / or, whose components carry field annotations
+                if any(isinstance(m, ast.Attribute) and m.attr == 'args' for m in ast.walk(e.value)):
+                    return T
+                return A
             kind, _ = self.repo.lookup(self.repo.resolve_name(fi.module, dotted(e) or '?'))
             return A if kind == 'class' else U
         if isinstance(e, ast.Subscript):
